@@ -375,6 +375,16 @@ theorem forms_exact (f : Form) (p : Path) (hf : f.wf = true) (hps : ∀ c ∈ p,
   | globDir a g =>
     simp [Form.wf] at hf
     exact globdir_pattern_exact a g p hf.1.1 hf.1.2
+  | dirPath q => simp [Form.wf] at hf       -- not among the well-formed forms of this theorem (see `Form.wf`)
+
+/-- tests (not the unbounded claim) of the multi-component directory form, whose exactness is not proved: everything below the
+    directory is matched, at any depth, and nothing beside it -/
+example : matchesPattern ["src".toList, "generated".toList, "v2".toList, "m.py".toList] (Form.dirPath ["src".toList, "generated".toList]).render = true ∧
+    matchesPattern ["src".toList, "generated".toList, "a.py".toList] (Form.dirPath ["src".toList, "generated".toList]).render = true ∧
+    matchesPattern ["src".toList, "generated.py".toList] (Form.dirPath ["src".toList, "generated".toList]).render = false ∧
+    matchesPattern ["lib".toList, "src".toList, "generated".toList, "a.py".toList] (Form.dirPath ["src".toList, "generated".toList]).render = false ∧
+    (Form.dirPath ["src".toList, "generated".toList]).specMatch ["src".toList, "generated".toList, "v2".toList, "m.py".toList] = true ∧
+    (Form.dirPath ["src".toList, "generated".toList]).specMatch ["src".toList, "generated.py".toList] = false := by decide
 
 theorem isIgnored_eq_spec (forms : List Form) (p : Path) (hf : ∀ f ∈ forms, f.wf = true)
     (hps : ∀ c ∈ p, '/' ∉ c) (hp0 : p ≠ []) :
